@@ -25,6 +25,16 @@ CHECKS = {
     text="TLC enumerates well-typed DataFrame programs (all up to depth 1, a seeded sample of depth 2, simulated behaviours up to depth 4-5) from the QueryGen specification, which also derives where row order and index labels are defined. Every program is built through the public API on seeded tables with NULLs and duplicate keys under two partition layouts (known divisions / unknown divisions with an empty partition) and executed unoptimized, at optimizer stages and through compute(); TLC validates each observation against the unoptimized reference with the acceptance relation of spec/Rel.tla (no new error, same schema, same rows as sequence or bag, sortedness of top-level sorts).",
     note="Trusted: TLC; the unoptimized lowering as reference; pandas objects' values encoded to integers (non-integral results scaled by 1000). Bounded/sampled program space (operators of spec/QueryGen.tla only; depth <= 5); numeric columns only in this tier.",
     design="5.0 C01"),
+ "C03": dict(
+    technique="TLC-enumerated filter-focused programs (QueryGen) incl. the full join-kind x suffix x column table; TLC validates (1) every optimizer stage against the unoptimized query and (2) the rows each filter keeps against the spec's two-valued/three-valued predicate truth (Rel!Keep) on the unfiltered frame",
+    text="The program space is the QueryGen state machine with focus filter: predicate trees with and/or/not, isin, isna, column-vs-column comparisons and the OR-factoring shapes, placed above and below projections, elementwise ops, renames, sorts, set_index, shuffles, repartitions and merges of every kind and suffix pair (the merge x filter table is covered exhaustively, deeper programs by seeded sampling and TLC simulation). For each program TLC validates all stage results against the unoptimized execution and, for every filter in it, that the optimized filter keeps exactly the rows of the unfiltered frame on which the predicate is true according to the specification's own truth definition.",
+    note="Trusted: TLC; the unoptimized lowering; the predicate truth definition of spec/Rel.tla (numpy mode). The parquet reader side of the statement (filters handed to a file reader) is decided under C18.",
+    design="5.0 C03"),
+ "C04": dict(
+    technique="TLC-enumerated projection-focused programs (QueryGen) incl. every selection directly above operators with their own projection rule; TLC validates stage results incl. column labels/order against the unoptimized query, and the widened-input metamorphic relation for programs the spec marks closed",
+    text="Programs with focus project (single / ordered-pair / reordered selections through rename, add_prefix/add_suffix with affixes that share characters with labels, merge suffix pairs, combine_first, concat, groupby / sort / set_index / drop_duplicates with implicit key columns) are TLC-generated; selections directly above merge, prefix/suffix, rename, combine_first, concat, groupby, set_index, sort, drop_duplicates, nlargest and assign are covered exhaustively. TLC validates every stage against the unoptimized query (clauses Columns, NoNewError, Rows) and, where QueryGen derives that the result columns are fixed by the query (sc.closed), that computing on inputs widened with unused columns gives the same result.",
+    note="Trusted: TLC; unoptimized lowering as reference; the closed/tainted rules of spec/QueryGen.tla decide where the widening relation applies.",
+    design="5.0 C04"),
 }
 
 def main():
